@@ -19,6 +19,8 @@ def joinDot : List (List Char) → List Char
 
 def DotFree (b : List Char) : Prop := '.' ∉ b
 
+instance (b : List Char) : Decidable (DotFree b) := inferInstanceAs (Decidable ('.' ∉ b))
+
 theorem splitDot_ne_nil (s : List Char) : splitDot s ≠ [] := by
   cases s with
   | nil => simp [splitDot]
